@@ -296,8 +296,9 @@ class error_997_visitor(error_visitor.error_visitor):
         @type err_st: L{error_handler.err_st}
         """
         seg_data = pyx12.segment.Segment('AK2', '~', '*', ':')
-        seg_data.append(self._echo(err_st.trn_set_id))
-        seg_data.append(self._echo(err_st.trn_set_control_num).strip())
+        # a header cut short (ST*837) has no control number: the set is still named
+        seg_data.append(self._echo(err_st.trn_set_id) or '')
+        seg_data.append((self._echo(err_st.trn_set_control_num) or '').strip())
         self._write(seg_data)
 
     def __get_st_errors(self, err_st):
